@@ -167,9 +167,16 @@ class MergeConsecutiveOp(BaseOp):
         """
         remove_df = pd.DataFrame(remove_groups, columns=["remove"])
         max_groups = max(remove_groups)
+        # The columns hold text when the file has n/a entries in them: compute on numbers.
+        for column in ("onset", "duration"):
+            if not pd.api.types.is_numeric_dtype(df_new[column]):
+                df_new[column] = pd.to_numeric(df_new[column], errors='coerce')
         for index in range(max_groups):
             df_group = df_new.loc[remove_df["remove"]
                                   == index + 1, ["onset", "duration"]]
+            if df_group.empty:
+                # Group numbers also count runs of the event code in which nothing was merged.
+                continue
             max_group = df_group.sum(axis=1, skipna=True).max()
             anchor = df_group.index[0] - 1
             max_anchor = df_new.loc[anchor, [
